@@ -38,8 +38,6 @@ TABLE = [
     ("EnrPublicKey for ecdsa::verifying::VerifyingKey", "copy_from_slice", "lib", "k256: field elements are GenericArray<u8, U32> (32 bytes by type) copied into 32-byte halves of a [u8;64]", 2),
     ("EnrPublicKey for ecdsa::verifying::VerifyingKey", "Index<std::ops::RangeFrom<usize>>>::index", "lib", "k256: the uncompressed SEC1 encoding of a public key is 65 bytes, so [1..] is in range", 1),
     ("digest", "copy_from_slice", "lib", "sha3: Keccak256 output is GenericArray<u8, U32> (32 bytes by type) copied into [u8;32]", 1),
-    ("node_id::NodeId as std::fmt::Display", "String as std::ops::Index", "lib", "hex::encode of [u8;32] is 64 ASCII characters: [0..4] and [60..] are in range and on char boundaries", 2),
-    ("node_id::NodeId as std::fmt::Display", "overflow:Sub", "lib", "hex::encode of [u8;32] has length 64 >= 4", 1),
     ("Enr<K> as alloy_rlp::Decodable>::decode", "overflow:Sub", "lib", "Header::decode_bytes only ever advances the slice: remaining before >= remaining after", 1),
     ("builder::Builder::<K>::rlp_content", "overflow:Add", "lib", "sum of two in-memory buffer lengths cannot overflow usize", 1),
     ("builder::Builder::<K>::build", "overflow:Add", "lib", "sum of two in-memory buffer lengths and 8 cannot overflow usize", 2),
@@ -193,6 +191,11 @@ def discharge(ctx, f, an, site):
                     v = a + b2 if op.startswith("Add") else a - b2 if op.startswith("Sub") else a * b2
                     if 0 <= v < 2**64:
                         return ("const", "arithmetic on the constants %d and %d" % (a, b2))
+                if st.rv.j["op"].startswith("Sub"):
+                    # len(h) - c on a hex string of statically known length
+                    v = shapes._ascii_off(("expr", an.rvalue_expr(st.rv, bb, i)), None)
+                    if v is not None and v >= 0:
+                        return ("lib", "hex::encode of a fixed-size array has a statically known length: the difference is %d" % v)
                 if st.rv.j["op"].startswith("Add"):
                     # sums of in-memory lengths and small constants cannot overflow usize
                     def lengthy(o):
@@ -257,6 +260,13 @@ def discharge(ctx, f, an, site):
                 if g is not None and g.output and g.output.get("k") == "array" and g.output.get("n") == 32:
                     return ("inv", "argument is the [u8;32] returned by digest(); NodeId::parse returns Ok for 32-byte input (C16 rule PARSE)")
         return None
+    if name in ("index", "split_at") and len(args) == 2:
+        # slices of a hex string of statically known length (ASCII: every offset is a boundary)
+        ce = an.call_expr(t, bb)
+        from kernel import E
+        sub = shapes.ascii_sub(ce) if name == "index" else shapes.ascii_sub(E("field", ce, "0"))
+        if sub is not None:
+            return ("lib", "hex::encode of a [u8;%d] is %d ASCII characters: the range %d..%d is in bounds and on character boundaries" % (sub[0].a[0].targs[0].get("n", 0) if sub[0].a[0].targs else 0, 2 * (sub[0].a[0].targs[0].get("n", 0) if sub[0].a[0].targs else 0), sub[1], sub[2]))
     if name in ("index", "index_mut"):
         base, ix = args[0], args[1]
         rf = strip(ix)
